@@ -17,7 +17,7 @@ import math, itertools
 from fractions import Fraction
 import z3
 from pyvc.contract import Contract, State
-from pyvc.values import SInt, Unsupported, PyRaise, zint
+from pyvc.values import SInt, SObj, Sym, Unsupported, PyRaise, zint
 from pyvc import ops
 
 PROP = 'C09'
@@ -135,8 +135,144 @@ class Gauss1Count(Contract):
         return [('enough-points-for-degree', 2 * N - 1 >= S.deg)]
 
 
+# ---- tensor products: weights and coordinates are listed in the same order -------------------------------------------
+
+class NdArr(Sym):
+    """n-dimensional array with symbolic shape: sel(i0, .., ik) -> z3 Real term (row-major semantics for ravel/reshape)."""
+
+    def __init__(self, shape, sel, name='arr'):
+        self.shape, self.sel, self.name = list(shape), sel, name
+
+    def getattr(self, ctx, name):
+        if name == 'ravel':
+            return lambda ctx: self.reshape_to([self.size()])
+        if name == 'reshape':
+            return lambda ctx, *sh: self.reshape_to([zint(x) for x in (sh[0] if len(sh) == 1 and isinstance(sh[0], tuple) else sh)])
+        if name == 'shape':
+            return tuple(SInt(x) for x in self.shape)
+        raise Unsupported('ndarray.' + name)
+
+    def size(self):
+        r = z3.IntVal(1)
+        for x in self.shape:
+            r = r * x
+        return z3.simplify(r)
+
+    def reshape_to(self, newshape):
+        """C-order reshape of an array whose trailing axes are kept: (a, b, *rest) -> (a*b, *rest) or full ravel."""
+        old, sel = self.shape, self.sel
+        if len(newshape) == 1 and len(old) == 2:
+            b = old[1]
+            return NdArr(newshape, lambda k: sel(k / b, k % b), self.name + '.ravel')
+        if len(newshape) == 2 and len(old) == 3:
+            b = old[1]
+            return NdArr(newshape, lambda k, d: sel(k / b, k % b, d), self.name + '.reshape')
+        raise Unsupported('reshape %s -> %s' % (old, newshape))
+
+    def getitem(self, ctx, idx):
+        if not isinstance(idx, tuple):
+            idx = (idx,)
+        # supports slice(None), None (newaxis) and half-open slices :k / k: on the LAST axis only via setitem
+        src_axis = 0
+        plan = []
+        for it in idx:
+            if it is None:
+                plan.append(None)
+            elif isinstance(it, slice) and it.start is None and it.stop is None:
+                plan.append(src_axis)
+                src_axis += 1
+            else:
+                raise Unsupported('index %r' % (it,))
+        shape = [z3.IntVal(1) if p is None else self.shape[p] for p in plan]
+        sel = self.sel
+        return NdArr(shape, lambda *ix: sel(*[ix[k] for k, p in enumerate(plan) if p is not None]), self.name + '[..]')
+
+    def binop(self, ctx, op, other, reflected):
+        if op == '*' and isinstance(other, NdArr) and len(other.shape) == len(self.shape):
+            a, b = (other, self) if reflected else (self, other)
+            shape, pick_a, pick_b = [], [], []
+            for x, y in zip(a.shape, b.shape):
+                xs, ys = z3.simplify(x), z3.simplify(y)
+                one_x, one_y = z3.is_int_value(xs) and xs.as_long() == 1, z3.is_int_value(ys) and ys.as_long() == 1
+                shape.append(y if one_x else x)
+                pick_a.append(one_x)
+                pick_b.append(one_y)
+            return NdArr(shape, lambda *ix: a.sel(*[z3.IntVal(0) if pa else i for i, pa in zip(ix, pick_a)]) * b.sel(*[z3.IntVal(0) if pb else i for i, pb in zip(ix, pick_b)]), 'outer')
+        return NotImplemented
+
+    def setitem(self, ctx, idx, value):
+        # coords[:, :, :k] = v  /  coords[:, :, k:] = v   with v broadcast along size-1 axes
+        if not (isinstance(idx, tuple) and len(idx) == len(self.shape) and all(isinstance(i, slice) for i in idx)):
+            raise Unsupported('store %r' % (idx,))
+        last = idx[-1]
+        old = self.sel
+        ones = [z3.is_int_value(z3.simplify(x)) and z3.simplify(x).as_long() == 1 for x in value.shape]
+        vsel = value.sel
+        if last.start is None and last.stop is not None:
+            k = zint(last.stop)
+            self.sel = lambda *ix: z3.If(ix[-1] < k, vsel(*[z3.IntVal(0) if o else i for i, o in zip(ix, ones)]), old(*ix))
+        elif last.stop is None and last.start is not None:
+            k = zint(last.start)
+            self.sel = lambda *ix: z3.If(ix[-1] >= k, vsel(*[z3.IntVal(0) if o else i for i, o in zip(ix[:-1], ones[:-1])], ix[-1] - k), old(*ix))
+        else:
+            raise Unsupported('store slice %r' % (last,))
+
+
+class TensorWeights(Contract):
+    """TensorPoints.weights / .coords: point (i, j) of the product sits at flat index i*n2 + j in BOTH arrays:
+    weights[i*n2+j] = w1[i]*w2[j],  coords[i*n2+j] = (coords1[i], coords2[j])."""
+    prop = PROP
+
+    def __init__(self, what):
+        self.what = what
+        self.fn = 'points:TensorPoints.' + what
+
+    def setup(self, cx):
+        n1, n2, d1, d2 = cx.int('n1'), cx.int('n2'), cx.int('d1'), cx.int('d2')
+        cx.assume(z3.And(n1 >= 1, n2 >= 1, d1 >= 0, d2 >= 0))
+        W1, W2 = z3.Function('w1', z3.IntSort(), z3.RealSort()), z3.Function('w2', z3.IntSort(), z3.RealSort())
+        C1, C2 = z3.Function('c1', z3.IntSort(), z3.IntSort(), z3.RealSort()), z3.Function('c2', z3.IntSort(), z3.IntSort(), z3.RealSort())
+        p1 = SObj('Points', attrs=dict(npoints=SInt(n1), ndims=SInt(d1), weights=NdArr([n1], lambda i: W1(i), 'w1'), coords=NdArr([n1, d1], lambda i, d: C1(i, d), 'c1')))
+        p2 = SObj('Points', attrs=dict(npoints=SInt(n2), ndims=SInt(d2), weights=NdArr([n2], lambda i: W2(i), 'w2'), coords=NdArr([n2, d2], lambda i, d: C2(i, d), 'c2')))
+        me = SObj('TensorPoints', attrs=dict(points1=p1, points2=p2, npoints=SInt(n1 * n2), ndims=SInt(d1 + d2)))
+        S = State(args=(me,), n1=n1, n2=n2, d1=d1, d2=d2, W1=W1, W2=W2, C1=C1, C2=C2)
+        E = z3.Function('empty3', z3.IntSort(), z3.IntSort(), z3.IntSort(), z3.RealSort())
+
+        class NP:
+            def sym_getattr(self, ctx, name):
+                if name == 'empty':
+                    return lambda ctx, shape: NdArr([zint(x) for x in shape], lambda i, j, d: E(i, j, d), 'coords')
+                raise Unsupported('numpy.' + name)
+
+        class Ty:
+            def sym_getattr(self, ctx, name):
+                return lambda ctx, x, copy=True: x
+        S.globals = {'numpy': NP(), 'types': Ty(), '_': None}
+        # L-DIVMOD instance for the row-major index
+        i, j = z3.Ints('i!dm j!dm')
+        cx.assume(z3.ForAll([i, j], z3.Implies(z3.And(0 <= i, 0 <= j, j < n2), z3.And((i * n2 + j) / n2 == i, (i * n2 + j) % n2 == j))),
+                  axiom='L-DIVMOD: divmod(i*n + j, n) = (i, j) for 0 <= j < n (lemma library; also z3-provable for fixed n)')
+        return S
+
+    def ensures(self, cx, S, r):
+        if not isinstance(r, NdArr):
+            raise Unsupported('returned %r' % (r,))
+        i, j, d = z3.Ints('i j d')
+        rng = z3.And(0 <= i, i < S.n1, 0 <= j, j < S.n2)
+        if self.what == 'weights':
+            return [('length', z3.simplify(r.shape[0]) == S.n1 * S.n2 if len(r.shape) == 1 else z3.BoolVal(False)),
+                    ('weight-of-point-(i,j)-at-i*n2+j', z3.ForAll([i, j], z3.Implies(rng, r.sel(i * S.n2 + j) == S.W1(i) * S.W2(j))))]
+        return [('coords-of-point-(i,j)-at-i*n2+j', z3.ForAll([i, j, d], z3.Implies(z3.And(rng, 0 <= d, d < S.d1 + S.d2),
+                                                                                  r.sel(i * S.n2 + j, d) == z3.If(d < S.d1, S.C1(i, d), S.C2(j, d - S.d1)))))]
+
+    def replay(self, ob):
+        import os
+        here = os.path.dirname(os.path.dirname(os.path.abspath(__file__)))
+        return "import sys; sys.path.insert(0, %r)\nfrom native import c09\nc09.tensor()\n" % here
+
+
 def contracts():
-    cs = [Gauss1Count()]
+    cs = [Gauss1Count(), TensorWeights('weights'), TensorWeights('coords')]
     for deg in range(0, 9):
         cs.append(Table('gauss2', 2, deg, 7 if deg > 6 else 6) if False else Table('gauss2', 2, deg, 7))
     for deg in range(0, 10):
